@@ -73,6 +73,12 @@ AGG = [
     "N + K > 2",
     "M + K = 3",
     "X = N - K",
+    # two relations over one aggregate value with different non-unit coefficients (combined into a two-sided guard)
+    "N = #sum { Z : s(Z) }; 2*N > 3; 3*N < 10",
+    "N = #sum { Z : s(Z) }; 2*N < X; 3*N > 4",
+    "M = #count { Z : s(Z) }; 2*M >= 2; 3*M <= 7",
+    "N = #sum { Z : s(Z) }; 2*N > 1; 2*N < 5",
+    "N = #sum { Z : s(Z) }; 3*N >= X; 2*N <= 4",
 ]
 MENU = CMP + AGG
 
